@@ -186,6 +186,12 @@ def check_b2(lib, B2):
             if mac in ('unwrap', 'expect') or 'format' in mac:
                 continue
             key = (b.closure_of or b.path, mac)     # a closure body counts as part of its function (for-loop vs .map(|..| ..))
+            if key not in LEDGER:
+                # a private helper that is called from exactly one (ledgered) function counts as part of that function
+                owner = b.closure_of or b.path
+                callers = set((x.closure_of or x.path) for x in lib for cb in x.calls() if cb.term.callee.path == owner)
+                if len(callers) == 1 and (list(callers)[0], mac) in LEDGER:
+                    key = (list(callers)[0], mac)
             seen.setdefault(key, []).append(b.loc(blk.term.sp))
     B2.sites += sum(len(v) for v in seen.values())
     for key, locs in sorted(seen.items()):
